@@ -127,6 +127,22 @@ def stages(report, R, db, S, M, fi, is_stage, what):
                             rel(fi.path))
     result = None
     prob = {}
+    # a dispatch written as data (a generator of stage callables run by a
+    # helper, `deque(map(...), maxlen=0)`): no listener loop is visible on
+    # any path -- the structure is not the one these rules read
+    def runs_elements(p):
+        """some loop calls the elements it iterates over: stage(packet)"""
+        for e in p.flat(('loop',)):
+            for q in e.paths:
+                for c in q.flat(('call',)):
+                    if c.fn[0] == 'elem' or (c.fn[0] == 'phi'):
+                        return True
+        return False
+    if any(runs_elements(p) for p in complete) or \
+            not any(e.kind == 'loop' for p in complete for e in p.events):
+        raise AnalysisError('%s: the stages are run through callables the '
+                            'summary cannot follow (no listener loop on any '
+                            'path)' % fi.qualname, fi.node, rel(fi.path))
     for p in complete:
         top = [e for e in p.events if e.kind in ('loop', 'call')]
         st = [i for i, e in enumerate(top) if e.kind == 'call'
@@ -429,6 +445,18 @@ def call_packet(report, db, S):
                 prob['call_packet:callback-args'] = (
                     'the callback is not called with the packet')
             g = guard_of(p.conds_at(e))
+            if g is None and any(
+                    a[1] == 'isinstance' and pol and struct(a[2][0]) == pk
+                    and any(t[0] == 'attr' and struct(t[1]) == me
+                            for t in subterms(a[2][1]))
+                    for a, pol, _ in p.conds_at(e)):
+                # isinstance(packet, <something computed from the registered
+                # types>): whether that computation keeps every type's
+                # coverage is a question about class hierarchies at run time
+                raise AnalysisError(
+                    'call_packet filters with isinstance against a value '
+                    'derived from the registered types (not the types '
+                    'themselves): not decided', fi.node, rel(fi.path))
             if g is None:
                 prob['call_packet:filter'] = (
                     'the callback is not guarded by isinstance(packet, '
